@@ -30,7 +30,8 @@ theorem scale_and_distr_null_eq' (P : Prims α) (cfg : RatioCfg α) (cv cn tv tn
     RatioOfMeans.scale_and_distr_null P cfg cv cn tv tn
       = (P.sqrt (max (seSq (optsOf cfg) cv cn tv tn) 0), refDist P (optsOf cfg) cv cn tv tn, ()) := by
   unfold RatioOfMeans.scale_and_distr_null seSq refDist degF welchDf pooledVar optsOf
-  cases cfg.equal_var <;> cases cfg.use_t <;> simp <;> (try (congr 2; ring))
+  cases cfg.equal_var <;> cases cfg.use_t <;> simp <;>
+    (try (first | ring | (congr 1 <;> ring) | (congr 2 <;> ring) | (congr 3 <;> ring)))
 
 theorem scale_and_distr_null_eq (P : Prims α) (cfg : RatioCfg α) (cv cn tv tn : α)
     (h : 0 ≤ seSq (optsOf cfg) cv cn tv tn) :
